@@ -122,7 +122,7 @@ func applyPart(c *CfgCore, p *Part, owner int) {
 		c.TU = buildTU(*p.TU)
 	}
 	if p.Chain > 0 {
-		c.Chain = buildChain(p.Chain, int(p.ID))
+		c.Chain = buildDeep(int(p.ID))
 	}
 	if p.Held != nil {
 		h := buildHeld(*p.Held)
